@@ -167,6 +167,11 @@ func layoutScripts(name string) map[uint16][]gocbcore.SimPacket {
 			0: {marker(1, 2), M(1), M(2), marker(3, 3), symbolPacket("SEQ", 3), marker(4, 5), M(4), symbolPacket("CC", 5)},
 			1: {marker(1, 1), symbolPacket("SEQ", 1), marker(2, 2), M(2)},
 		}
+	case "seqadvgap": // a seqno-advanced that does not reach (vb0: lies below; vb1: lies inside) the snapshot announced before it
+		return map[uint16][]gocbcore.SimPacket{
+			0: {marker(1, 2), M(1), M(2), marker(10, 20), symbolPacket("SEQ", 7), marker(21, 22), M(21)},
+			1: {marker(1, 9), M(1), symbolPacket("SEQ", 5), marker(10, 10), M(10)},
+		}
 	case "reserved": // library-internal keys interleaved
 		return map[uint16][]gocbcore.SimPacket{
 			0: {marker(1, 3), M(1), symbolPacket("Mres", 2), M(3), marker(4, 4), symbolPacket("Mtxn", 4)},
